@@ -424,21 +424,45 @@ def op_sig(x):
     return k
 
 
-def reject_key(o, clause, row):
-    """stable signature of a rejected observation.  Broad root causes get a class key, everything else names the
-    instruction, the failing clause, the mode and the operand shape."""
+def op_fits(fo, x):
+    """python twin of OpFits in X86Enc.tla (only used to name the class of a rejection)"""
+    if x["t"] == "r": return x["c"] in fo["regs"] and (fo["fixed"] < 0 or fo["fixed"] == x["id"])
+    if x["t"] == "m":
+        if fo["msz"] < 0: return False
+        if not (fo["msz"] == 0 or x["sz"] == 0 or x["sz"] == fo["msz"] or (x["bc"] and fo["bcst"] and x["sz"] * 8 == fo["bcst"])): return False
+        if x["bc"] and not fo["bcst"]: return False
+        return (x["it"] not in VEC) if not fo["vsib"] else x["it"] == fo["vsib"]
+    if x["t"] == "i": return fo["ibits"] > 0 or fo["iconst"] >= 0
+    return fo["rbits"] > 0
+
+
+def shape_fits(f, o):
+    if not (f["arch"] == "ANY" or (f["arch"] == "X64") == (o["m"] == 64)): return False
+    if len(o["ops"]) == len(f["ops"]): al = list(range(len(f["ops"])))
+    elif len(o["ops"]) == len(f["expl"]): al = [j - 1 for j in f["expl"]]
+    else: return False
+    return all(op_fits(f["ops"][al[j]], x) for j, x in enumerate(o["ops"]))
+
+
+def emitted_evex(o):
+    b = o["b"]
+    j = 0
+    while j < len(b) and b[j] in (0x66, 0x67, 0xF0, 0xF2, 0xF3, 0x26, 0x2E, 0x36, 0x3E, 0x64, 0x65): j += 1
+    return j < len(b) and b[j] == 0x62
+
+
+def reject_key(o, clause, row, forms, names):
+    """stable signature of a rejected observation.  Root causes that span many instructions get a class key, everything
+    else names the instruction, the failing clause, the mode and the operand shape."""
     hi = any((x["t"] == "r" and x["c"] in VEC and x["id"] >= 16) or (x["t"] == "m" and x["it"] in VEC and x["i"] >= 16) for x in o["ops"])
     a16 = any(x["t"] == "m" and (x["bt"] == "gpw" or x["it"] == "gpw") for x in o["ops"])
-    has_evex_row = row["_name_has_evex"]
-    if hi and not has_evex_row:
-        return "class:vector-register-16..31-accepted-by-instruction-without-evex-form"
-    if hi and row["pk"] != "E":
-        return f"class:vector-register-16..31-with-non-evex-row:{clause}"
-    if (o["opt"] >> 11 & 1) and not has_evex_row:
-        return "class:evex-option-accepted-by-instruction-without-evex-form"
-    if o["k"] and not has_evex_row:
-        return "class:mask-register-accepted-by-instruction-without-evex-form"
-    if a16 and row["pk"] == "E" and clause == "mem-disp":
+    deco = o["k"] or o["z"] or o["er"] >= 0 or o["sae"] or any(x["t"] == "m" and x["bc"] for x in o["ops"])
+    optevex = o["opt"] >> 11 & 1
+    fit = [forms[i - 1] for i in names.get(o["n"], []) if forms[i - 1]["ok"] and shape_fits(forms[i - 1], o)]
+    if (hi or deco or optevex) and not any(f["pk"] == "E" and f["name"] == o["n"] for f in fit):
+        what = "vector-register-16..31" if hi else ("mask-or-evex-decoration" if deco else "evex-option")
+        return f"class:{what}-accepted-for-operand-signature-without-evex-row"
+    if a16 and emitted_evex(o) and clause == "mem-disp":
         return "class:evex-disp8-not-compressed-with-16-bit-addressing"
     sig = ",".join(op_sig(x) for x in o["ops"])
     opts = "".join("+" + n for j, n in enumerate(["lock", "rep", "repne", "xacq", "xrel", "short", "long", "modmr", "modrm", "vex3", "vex", "evex", "rex"])
@@ -553,12 +577,12 @@ def run_sweep(ctx, bdir, tier):
     return outs
 
 
-def judge(ctx, forms, rej, what):
+def judge(ctx, forms, names, rej, what):
     """group, corroborate with the disassemblers, report"""
     groups = collections.OrderedDict()
     for o, clause, k in rej:
         row = forms[(k or o["f"]) - 1]
-        groups.setdefault(reject_key(o, clause, row), []).append((o, clause, row))
+        groups.setdefault(reject_key(o, clause, row, forms, names), []).append((o, clause, row))
     summary = {}
     for key, items in groups.items():
         # diverse sample of the group for corroboration
@@ -698,7 +722,7 @@ def run(ctx):
         o, v1, v2, texts = bad[0]
         raise Broken(f"spec validation: X86Enc.tla accepts bytes that llvm-mc AND objdump read differently ({len(bad)} cases), e.g. {describe(o)} | "
                      f"llvm-mc: {texts} => {v1} | objdump => {v2}")
-    summary = judge(ctx, forms, rej, "sweep")
+    summary = judge(ctx, forms, names, rej, "sweep")
     # coverage bookkeeping
     judged_forms = {o["f"] for o in ok_obs} | {o["f"] for o, _, _ in rej}
     unj_by = collections.Counter((o["n"], why) for o, why, _ in unj)
@@ -747,4 +771,4 @@ def replay(ctx, path):
     rej, unj = tlc_pointwise(ctx, lines, "replay", 1)
     ctx.evaluations = len(lines)
     for o, clause, k in rej[:1]:
-        ctx.violation(f"{reject_key(o, clause, forms[(k or o['f']) - 1])}: {describe(o)} [clause {clause}]", again)
+        ctx.violation(f"{reject_key(o, clause, forms[(k or o['f']) - 1], forms, names)}: {describe(o)} [clause {clause}]", again)
